@@ -62,6 +62,7 @@ struct Loaded {
     doc: zeep_lib_doc::Doc,
     reference: Vec<u8>,
     n_calls: usize,
+    n_flushes: usize,
 }
 
 /// `RustDocument` lives in a private module of zeep-lib; its type is only nameable through inference.
@@ -102,7 +103,7 @@ fn load(doc: &CorpusDoc) -> Result<Loaded, String> {
     let boxed: zeep_lib_doc::Doc = Box::new(d);
     let mut cv = CountingVec::default();
     boxed.write_vec(&mut cv)?;
-    Ok(Loaded { doc: boxed, reference: cv.bytes, n_calls: cv.calls })
+    Ok(Loaded { doc: boxed, reference: cv.bytes, n_calls: cv.calls, n_flushes: cv.flushes })
 }
 
 /// Loads `doc` in a freshly spawned thread whose entropy is canonical and which has created no hash map yet, then
@@ -123,6 +124,7 @@ fn with_loaded<R: Send>(doc: &CorpusDoc, f: impl FnOnce(&Loaded) -> R + Send) ->
 pub struct CountingVec {
     bytes: Vec<u8>,
     calls: usize,
+    flushes: usize,
 }
 impl io::Write for CountingVec {
     fn write(&mut self, buf: &[u8]) -> io::Result<usize> {
@@ -131,6 +133,7 @@ impl io::Write for CountingVec {
         Ok(buf.len())
     }
     fn flush(&mut self) -> io::Result<()> {
+        self.flushes += 1;
         Ok(())
     }
 }
@@ -175,13 +178,14 @@ struct Plan {
     at_byte: Option<(usize, u64)>,
     intr: Option<(usize, usize)>, // first call, repetitions
     short: Option<(u64, u64)>,    // pattern, parameter
+    flush: Option<(usize, u64)>,  // flush call index, error (the generator calls no flush today; a refactoring may)
 }
 
-const KIND_NAMES: [&str; 8] = ["none", "hard", "zero", "at_byte", "interrupted", "short", "short+hard", "interrupted+hard"];
+const KIND_NAMES: [&str; 9] = ["none", "hard", "zero", "at_byte", "interrupted", "short", "short+hard", "interrupted+hard", "flush-fails"];
 
 fn decode_plan(ch: &mut Chooser, n_calls: usize, n_bytes: usize) -> (u64, Plan) {
     let n = n_calls.max(1) as u64;
-    let kind = ch.choose("kind", 8);
+    let kind = ch.choose("kind", 9);
     let mut p = Plan::default();
     match kind {
         1 => {
@@ -223,6 +227,11 @@ fn decode_plan(ch: &mut Chooser, n_calls: usize, n_bytes: usize) -> (u64, Plan) 
             let e = ch.choose("err", 18);
             p.hard = Some((k + r + gap, e, false));
         }
+        8 => {
+            let j = ch.choose("flush_index", 64) as usize;
+            let e = ch.choose("err", 18);
+            p.flush = Some((j, e));
+        }
         _ => {}
     }
     (kind, p)
@@ -243,6 +252,7 @@ pub struct FaultyWriter {
     capture_site: bool,
     site: Option<String>,
     lcg: u64,
+    flushes: usize,
 }
 
 impl FaultyWriter {
@@ -260,6 +270,7 @@ impl FaultyWriter {
             capture_site,
             site: None,
             lcg,
+            flushes: 0,
         }
     }
     fn accept(&mut self, part: &[u8]) {
@@ -339,6 +350,14 @@ impl io::Write for FaultyWriter {
         Ok(n)
     }
     fn flush(&mut self) -> io::Result<()> {
+        let j = self.flushes;
+        self.flushes += 1;
+        if let Some((k, e)) = self.plan.flush {
+            if k == j {
+                self.fail(self.calls);
+                return Err(make_err(e));
+            }
+        }
         Ok(())
     }
 }
@@ -503,6 +522,7 @@ fn bump(m: &mut BTreeMap<String, u64>, k: &str, by: u64) {
 struct Ctx {
     docs: Vec<CorpusDoc>,
     dims: Vec<(usize, usize)>, // n_calls, n_bytes per doc (from the main thread's load)
+    flushes: Vec<usize>,
 }
 
 /// A unit is a run of consecutive items on the same document; it is processed in one fresh thread.
@@ -735,6 +755,11 @@ fn build_items(ctx: &Ctx, tier: &str, seed: u64) -> (Vec<Item>, Value) {
         let (n, nb) = ctx.dims[d];
         let name = &ctx.docs[d].name;
         items.push(Item { doc: d, tape: vec![0] });
+        for j in 0..ctx.flushes[d].min(64) as u64 {
+            for e in rep_errs {
+                items.push(Item { doc: d, tape: vec![8, j, e] });
+            }
+        }
         for pat in 0..4u64 {
             items.push(Item { doc: d, tape: vec![5, pat, 7 + pat] });
         }
@@ -756,8 +781,8 @@ fn build_items(ctx: &Ctx, tier: &str, seed: u64) -> (Vec<Item>, Value) {
             product.push(json!({"document": name, "sink_calls": n, "call_indices": "all", "error_kinds": errs.len(), "plus": "zero(k), interrupted(k,1) at every k; short(p) for 4 patterns"}));
         } else {
             // very large documents: a prefix, plus seeded indices (thorough: many more)
-            let prefix = if thorough { 5_000 } else { 600 };
-            let sampled = if thorough { 20_000 } else { 1_500 };
+            let prefix = if thorough { 20_000 } else { 600 };
+            let sampled = if thorough { 60_000 } else { 1_500 };
             let mut rng = Rng::derive(seed, "sink-large", d as u64);
             let mut ks: BTreeSet<u64> = (0..prefix.min(n) as u64).collect();
             while ks.len() < (prefix + sampled).min(n) {
@@ -783,7 +808,7 @@ fn build_items(ctx: &Ctx, tier: &str, seed: u64) -> (Vec<Item>, Value) {
         }
     }
     // seeded combinations (short+hard, interrupted+hard, at_byte elsewhere)
-    let seeded = if thorough { 400_000 } else { 20_000 };
+    let seeded = if thorough { 2_000_000 } else { 20_000 };
     let mut weighted = Vec::new();
     for &d in &order {
         for _ in 0..(if ctx.dims[d].0 <= 6_000 { 4 } else { 1 }) {
@@ -836,17 +861,22 @@ fn main() {
     }
     let docs = corpus();
     let mut dims = Vec::new();
+    let mut flushes = Vec::new();
     let mut skipped = Vec::new();
     for d in &docs {
-        match with_loaded(d, |l| (l.n_calls, l.reference.len())) {
-            Ok(x) => dims.push(x),
+        match with_loaded(d, |l| (l.n_calls, l.reference.len(), l.n_flushes)) {
+            Ok(x) => {
+                dims.push((x.0, x.1));
+                flushes.push(x.2);
+            }
             Err(e) => {
                 skipped.push(json!({"document": d.name, "reason": e}));
                 dims.push((0, 0));
+                flushes.push(0);
             }
         }
     }
-    let ctx = Ctx { docs, dims };
+    let ctx = Ctx { docs, dims, flushes };
 
     if let Some(path) = replay {
         let v = match simkernel::load_replay(&path) {
@@ -983,14 +1013,14 @@ fn main() {
         "write_sites": {"static_in_working_tree": static_sites.len(), "reached_by_profiled_documents": reached.len(), "unreached": unreached, "reached_but_not_in_static_list": extra_sites,
                          "first_reach": reached.iter().map(|(s, (d, i))| json!([s, d, i])).collect::<Vec<_>>()},
         "real_components": ["zeep_lib::utils::read_input_file_and_xsd_files_at_path", "zeep_lib::reader::XmlReader::read_xml", "every impl WriteXml (write_xml tree)", "std::io::Write::write_all/write_fmt"],
-        "stub_components": ["the sink: FaultyWriter implementing std::io::Write", "entropy (getrandom via libverifsim.so, fixed so that call indices are repeatable)"],
+        "stub_components": ["the sink: FaultyWriter implementing std::io::Write (write and flush)", "entropy (getrandom via libverifsim.so, fixed so that call indices are repeatable)"],
         "batch_digest": format!("{:016x}", stats.result_hash),
         "determinism_selfcheck": {"runs_repeated": slice.len(), "worker_counts": [simkernel::workers(), 3], "mismatches": det_mismatch},
         "violating_runs_before_dedup": stats.found.len(),
     });
     report.write_evidence(coverage, &[
         "the corpus documents exercise the emitters (see write_sites.unreached for emitter write sites no document reaches)",
-        "a failure is what std::io::Write::write returns; flush is never called by the generator",
+        "a failure is what std::io::Write::write or flush returns; the generator on the unchanged tree calls no flush (flush faults are enumerated as soon as it does)",
         "known_findings.json lists accepted findings; none suppresses a different key",
     ]);
     std::process::exit(report.finish(&paths));
